@@ -25,7 +25,12 @@ Inductive stmt :=
 | STry (body : list stmt)           (* try { body } catch e { print(type(e)); print(message of e); } *)
 | SBlock (body : list stmt)         (* { body } *)
 | SSetAttrFn (a g f : N)            (* <alias a>.f<g> = f<f>;   a function value leaves its module *)
-| SLamCall (body : list stmt).      (* { var l_ = || { body }; l_(); }   a closure created and called at run time *)
+| SLamCall (body : list stmt)       (* { var l_ = || { body }; l_(); }   a closure created and called at run time *)
+| SYield                            (* Fiber.yield();   only at the top level of the body of a function driven by SGen *)
+| SGen (a f : N) (between : list stmt).
+    (* { var g_ = Fiber.new(<alias a>.f<f>); while !g_.has_finished() { g_.call(); { between } } }     (a = 0: Fiber.new(f<f>))
+       the FUNCTION VALUE itself is the fiber's first frame (a function of another module when a <> 0); it runs up to its
+       first top-level `Fiber.yield();`, the caller runs `between`, resumes it, ... until it has finished *)
 
 Inductive top :=
 | TStmt (s : stmt)
@@ -97,6 +102,14 @@ Fixpoint find_fn_from (prog : program) (i : nat) (key : name) : option (list stm
   | _ :: r => find_fn_from r (S i) key
   end.
 Definition find_fn (prog : program) (key : name) : option (list stmt) := find_fn_from prog 0 key.
+
+(* the body of a generator function, cut at its top-level `Fiber.yield();` statements: n yields, n + 1 segments *)
+Fixpoint split_yield (l : list stmt) : list (list stmt) :=
+  match l with
+  | [] => [[]]
+  | SYield :: r => [] :: split_yield r
+  | s :: r => match split_yield r with seg :: rest => (s :: seg) :: rest | [] => [[s]] end
+  end.
 
 (* ---- the oracles a program defines ---- *)
 Section Oracles.
@@ -263,7 +276,9 @@ Section Mech.
   | TkExec1 (s : stmt) (env : lenv)               (* one statement *)
   | TkCall (env : lenv) (w : value)               (* call_value *)
   | TkFiber (k : nat) (f : N) (env : lenv)        (* call f<f> through k more nested fibers *)
-  | TkTops (ts : list top) (src : nat).           (* the top level of module source `src` *)
+  | TkTops (ts : list top) (src : nat)            (* the top level of module source `src` *)
+  | TkGen (m : nat) (segs : list (list stmt)) (fenv : lenv) (between : list stmt) (env : lenv).
+      (* a fiber whose first frame is a function of module object m: resume it for its next segment, then `between` *)
 
   Fixpoint run_task (fuel : nat) (tk : task) (x : xst) {struct fuel} : res :=
     match fuel with
@@ -376,6 +391,26 @@ Section Mech.
             | RNormal _ x2 => bind_s (do_step x2 EReturn) (fun x3 _ => RNormal env x3)
             | r => r
             end)
+        | SYield => RIll "yield outside a generator"
+        | SGen a f between =>
+          (* Fiber.new(<function value>): GetGlobal Fiber, then the function value, then the fiber is driven *)
+          get_global x "Fiber" (fun x1 _ =>
+            let k := fun (x2 : xst) (u : value) =>
+              match u with
+              | VFn m key =>
+                match find_fn prog key with
+                | Some body => run_task fuel' (TkGen m (split_yield body) [[]] between env) x2
+                | None => RIll "no such function"
+                end
+              | _ => RIll "not a function"
+              end in
+            if N.eqb a 0 then get_global x1 (fn_name f) k
+            else resolve env x1 (alias_name a) (fun x2 w =>
+              match w with
+              | VMod id => bind_s (do_step x2 (EGetAttr id (fn_name f))) (fun x3 o =>
+                             match o with OValue u => k x3 u | _ => RIll "getattr" end)
+              | _ => RIll "not a module"
+              end))
         end
       | TkCall env w =>
         match w with
@@ -420,6 +455,24 @@ Section Mech.
           | RNormal _ x' => run_task fuel' (TkTops rest src) x'
           | r' => r'
           end
+        end
+      | TkGen m segs fenv between env =>
+        match segs with
+        | [] => RNormal env x
+        | seg :: rest =>
+          (* load_fiber (new or resumed): the fiber's frame - a frame of module m - is on top; Fiber.yield / the end of
+             the function: unload_fiber, the caller's frame is on top again.  A single-frame fiber without handlers:
+             for the module machinery a resumption is what a first call is, a yield is what finishing is *)
+          bind_s (do_step x (EFiberCall m)) (fun x1 _ =>
+            match run_task fuel' (TkExec seg fenv) x1 with
+            | RNormal fenv' x2 =>
+              bind_s (do_step x2 EReturn) (fun x3 _ =>
+                match run_task fuel' (TkExec between ([] :: env)) x3 with
+                | RNormal _ x4 => run_task fuel' (TkGen m rest fenv' between env) x4
+                | r => r
+                end)
+            | r => r
+            end)
         end
       end
     end.
@@ -555,7 +608,8 @@ Section SpecEval.
   | SkExec1 (s : stmt) (env : senv)
   | SkCall (env : senv) (w : svalue)
   | SkFiber (k : nat) (f : N) (env : senv)
-  | SkTops (ts : list top) (src : nat).
+  | SkTops (ts : list top) (src : nat)
+  | SkGen (p : path) (segs : list (list stmt)) (fenv : senv) (between : list stmt) (env : senv).
 
   Definition sset (cur : path) (x : sx) (nm : name) (v : svalue) : sx :=
     mksx (set_sglobal (ss x) cur nm v) (sout x) (sfl x).
@@ -667,6 +721,28 @@ Section SpecEval.
             | QNormal _ x1 => QNormal env x1
             | r => r
             end
+        | SYield => QIll "yield outside a generator"
+        | SGen a f between =>
+          sget cur x "Fiber" (fun _ =>
+            let k := fun (u : svalue) =>
+              match u with
+              | SFn p key =>
+                match find_fn prog key with
+                | Some body => srun_task fuel' cur depth (SkGen p (split_yield body) [[]] between env) x
+                | None => QIll "no such function"
+                end
+              | _ => QIll "not a function"
+              end in
+            if N.eqb a 0 then sget cur x (fn_name f) k
+            else sresolve cur env x (alias_name a) (fun w =>
+              match w with
+              | SMod p =>
+                match alookup (sglobals (ss x) p) (fn_name f) with
+                | Some u => k u
+                | None => raise_s x KAttribute (undefined_property (fn_name f))
+                end
+              | _ => QIll "not a module"
+              end))
         end
       | SkCall env w =>
         match w with
@@ -710,6 +786,22 @@ Section SpecEval.
           match r with
           | QNormal _ x' => srun_task fuel' cur depth (SkTops rest src) x'
           | r' => r'
+          end
+        end
+      | SkGen p segs fenv between env =>
+        match segs with
+        | [] => QNormal env x
+        | seg :: rest =>
+          (* the generator's code runs in the module it was DEFINED in (p), with its own nesting depth and its own
+             locals; what it does not catch ends the run; then the caller goes on in ITS module (cur) *)
+          match srun_task fuel' p 1 (SkExec seg fenv) x with
+          | QNormal fenv' x1 =>
+            match srun_task fuel' cur depth (SkExec between ([] :: env)) x1 with
+            | QNormal _ x2 => srun_task fuel' cur depth (SkGen p rest fenv' between env) x2
+            | r => r
+            end
+          | QRaised e x1 => QFatal e x1
+          | r => r
           end
         end
       end
@@ -790,6 +882,10 @@ Fixpoint render_stmt (s : stmt) : string :=
   | SBlock body => "{ " ++ render_list body ++ "}"
   | SSetAttrFn a g f => alias_name a ++ "." ++ fn_name g ++ " = " ++ fn_name f ++ ";"
   | SLamCall body => "{ var l_ = || { " ++ render_list body ++ "}; l_(); }"
+  | SYield => "Fiber.yield();"
+  | SGen a f between =>
+    "{ var g_ = Fiber.new(" ++ (if N.eqb a 0 then "" else alias_name a ++ ".") ++ fn_name f
+    ++ "); while !g_.has_finished() { g_.call(); { " ++ render_list between ++ "} } }"
   end.
 
 Fixpoint render_stmts (l : list stmt) : string :=
@@ -844,6 +940,8 @@ Fixpoint wf_stmt (nmods : nat) (s : stmt) : bool :=
   match s with
   | SImport p a => negb (N.eqb p 0) && Nat.ltb (N.to_nat p) 5 && N.ltb a 100
   | STry body | SBlock body | SLamCall body => wf_list body && negb (dup_alias [] body)
+  | SGen _ _ body => wf_list body && negb (dup_alias [] body)
+  | SYield => false                 (* allowed only where wf_top says so: at the top level of a function body *)
   | SUseBuiltin k => N.ltb k 33
   | SFiber d _ => N.ltb d 8
   | _ => true
@@ -853,7 +951,7 @@ Definition wf_top (nmods : nat) (t : top) : bool :=
   match t with
   | TStmt s => wf_stmt nmods s
   | TDef _ _ => true
-  | TFn _ body => forallb (wf_stmt nmods) body && negb (dup_alias [] body)
+  | TFn _ body => forallb (fun s => match s with SYield => true | _ => wf_stmt nmods s end) body && negb (dup_alias [] body)
   end.
 
 Fixpoint fn_names (ts : list top) : list N :=
@@ -877,7 +975,7 @@ Definition wf_prog (prog : program) : bool :=
 (* ================================================================================================ *)
 (* wire format: one ';'-group per module: kind (0 ok, 1 missing, 2+k bad source k) then the statements
      1 t | 3 x | 4 x n | 5 p a | 7 a x | 8 a x n | 10 f | 11 a f | 12 | 15 k | 16 d f | 13 <stmts> 0 | 14 <stmts> 0
-     17 a g f | 18 <stmts> 0 (closure created and called)
+     17 a g f | 18 <stmts> 0 (closure created and called) | 19 (yield) | 22 a f <stmts> 0 (generator fiber driven to its end)
      20 x n (var) | 21 f <stmts> 0 (fn) *)
 Fixpoint parse_stmts (fuel : nat) (l : list N) : list stmt * list N :=
   match fuel with
@@ -901,6 +999,10 @@ Fixpoint parse_stmts (fuel : nat) (l : list N) : list stmt * list N :=
     | 18%N :: r =>
       let '(body, r1) := parse_stmts fuel' r in
       let '(ss, r2) := parse_stmts fuel' r1 in (SLamCall body :: ss, r2)
+    | 19%N :: r => let '(ss, r') := parse_stmts fuel' r in (SYield :: ss, r')
+    | 22%N :: a :: f :: r =>
+      let '(body, r1) := parse_stmts fuel' r in
+      let '(ss, r2) := parse_stmts fuel' r1 in (SGen a f body :: ss, r2)
     | 13%N :: r =>
       let '(body, r1) := parse_stmts fuel' r in
       let '(ss, r2) := parse_stmts fuel' r1 in (STry body :: ss, r2)
@@ -926,6 +1028,8 @@ Definition parse_one (fuel' : nat) (l : list N) : option (stmt * list N) :=
     | 16%N :: d :: f :: r => Some (SFiber d f, r)
     | 17%N :: a :: g :: f :: r => Some (SSetAttrFn a g f, r)
     | 18%N :: r => let '(body, r1) := parse_stmts fuel' r in Some (SLamCall body, r1)
+    | 19%N :: r => Some (SYield, r)
+    | 22%N :: a :: f :: r => let '(body, r1) := parse_stmts fuel' r in Some (SGen a f body, r1)
     | 13%N :: r => let '(body, r1) := parse_stmts fuel' r in Some (STry body, r1)
     | 14%N :: r => let '(body, r1) := parse_stmts fuel' r in Some (SBlock body, r1)
     | _ => None
